@@ -108,7 +108,7 @@ def fresh_process_stratum(run, quick):
     import sys
     from concurrent.futures import ThreadPoolExecutor
     pairs = [("sYlm", "sYlm"), ("evaluate-Horner", "evaluate-matrix")] + ([] if quick else [("D", "D"), ("rotate-Horner", "sYlm"), ("evaluate-matrix", "evaluate-Horner"), ("d", "rotate-matrix")])
-    jobs = [(na, nb, pre) for na, nb in pairs for pre in (range(0, 9) if quick else range(0, 14))]
+    jobs = [(na, nb, pre) for na, nb in pairs for pre in (range(0, 14) if quick else range(0, 24))]
     verif = os.path.dirname(os.path.dirname(os.path.dirname(os.path.abspath(__file__))))
     seed = run.rng.randrange(10 ** 6)
 
@@ -185,7 +185,7 @@ def check(run):
                     run.violation("method-unusable-with-private-workspace", f"Wigner.{name}[workspace=]", {"method": name}, "result", repr(r[1]))
                     continue
                 alone[(name, which)] = np.array(r[1], copy=True)
-                steps[(name, which)] = n + 1   # n kernels + the tail of Python code after the last one
+                steps[(name, which)] = 2 * n + 1   # Python code / kernel alternate: n kernels, n stretches of Python before them, and the tail
                 used_default = [x for x in log if "default-workspace" in x[2]]
                 if used_default:
                     run.violation("private-call-uses-default-workspace", f"Wigner.{name}[workspace=]", {"method": name, "kernels": [x[1] for x in used_default]}, "no access", "kernel handed the default workspace")
